@@ -13,14 +13,14 @@ open TH TH.Req
 theorem released_at_parse_iff (hs : List Header) (fr : Framing) (hf : framingOf hs = .ok fr) :
     (fr.kind = .empty ∨ ∃ n, fr.kind = .buffered n) ↔
       (fr.kind ≠ .upgrade ∧ fr.kind ≠ .chunked ∧ ∀ n, fr.kind ≠ .limited n) := by
-  sorry
+  cases hk : fr.kind <;> simp
 
 theorem small_body_limit : Extracted.smallBodyLimit = 1024 := by decide
 
 /-- a buffered body is never larger than the limit, and never belongs to an expecting request. -/
 theorem buffered_is_small (hs : List Header) (fr : Framing) (n : Nat) (hf : framingOf hs = .ok fr)
     (hk : fr.kind = .buffered n) : n ≤ Extracted.smallBodyLimit ∧ fr.expectContinue = false := by
-  sorry
+  exact framingOf_buffered hs fr n hf hk
 
 /-- One more request becomes available without anything being answered: if the stream starts
     with a head whose body is absent or buffered (and complete), the read-ahead continues with the
@@ -33,14 +33,26 @@ theorem ahead_step_small (fuel : Nat) (bs rest : Bytes) (fin : EndState) (h : He
     ∃ rest', (aheadLoop (fuel + 1) bs fin).1 = h :: (aheadLoop fuel rest' fin).1 ∧
       (aheadLoop (fuel + 1) bs fin).2 = (aheadLoop fuel rest' fin).2 ∧
       rest' = (match fr.kind with | .buffered n => rest.drop n | _ => rest) := by
-  sorry
+  rw [aheadLoop]
+  simp only [hh, hf, hver, hlast, Bool.false_eq_true, if_false]
+  rcases hk with hk | ⟨n, hk, hn⟩
+  · rw [hk]; exact ⟨rest, rfl, rfl, rfl⟩
+  · rw [hk]
+    have hlt : ¬ rest.length < n := by omega
+    simp only [hlt, if_false]
+    exact ⟨rest.drop n, rfl, rfl, rfl⟩
 
 /-- the read-ahead never ends blocked on a body when every delivered request released its reader:
     `blockedOnBody` only arises from a streamed body (limited / chunked / upgrade) or the 505 path. -/
 theorem ahead_blocks_only_on_streamed_body (fuel : Nat) (bs : Bytes) (fin : EndState)
     (hb : (aheadLoop fuel bs fin).2 = .blockedOnBody) : (aheadLoop fuel bs fin).1 ≠ [] ∨
       ∃ h rest, readHead bs fin = .ok (h, rest) := by
-  sorry
+  cases fuel with
+  | zero => simp [aheadLoop] at hb
+  | succ fuel =>
+    rcases aheadLoop_succ_cases fuel bs fin with ⟨_, himp⟩ | ⟨h, rest, _, hh, _⟩
+    · exact Or.inr (himp hb)
+    · exact Or.inr ⟨h, rest, hh⟩
 
 /-- what is read ahead is what the sequential connection loop delivers first: the read-ahead
     heads are a prefix of the heads `runLoop` delivers under any script whose handlers do not block. -/
@@ -48,7 +60,7 @@ theorem ahead_heads_prefix_of_run (fuel : Nat) (bs : Bytes) (script : Script) (i
     ∃ more, ((runLoop fuel idx s bs .eof script).delivered.drop s.delivered.length).map
         (fun d => (d.method, d.url, d.version, d.headers))
       = ((aheadLoop fuel bs .eof).1.map (fun h => (h.method, h.url, h.version, h.headers))) ++ more := by
-  sorry
+  exact ahead_prefix fuel idx s bs .eof script
 
 example : (aheadLoop 10 b!"GET /a HTTP/1.1\r\n\r\nPOST /b HTTP/1.1\r\nContent-Length: 3\r\n\r\nabcGET /c HTTP/1.1\r\n\r\n" .open).1.map (·.url)
     = [b!"/a", b!"/b", b!"/c"] := by decide
@@ -56,3 +68,4 @@ example : (aheadLoop 10 b!"POST /b HTTP/1.1\r\nContent-Length: 2000\r\n\r\nabcGE
     = ([⟨⟨b!"POST"⟩, b!"/b", ⟨1, 1⟩, [⟨b!"Content-Length", b!"2000"⟩]⟩], .blockedOnBody) := by decide
 
 end TH.Props.C11
+
